@@ -206,12 +206,12 @@ def execute(env, sc):
             hname, form, frag = named["V"]
             # the input class of the reference is the signature (the header that carried it is in the detail); one class per case,
             # the most specific first, so that a known finding for one class cannot hide another
-            if form in ("rel-plain", "rel-dots", "query-only"):
-                cls = "relative-path-reference:" + form
-            elif form in ("net-path", "abs-path-dots", "absolute-scheme-case"):
-                cls = form
-            elif frag:
+            if frag:
                 cls = "with-fragment"
+            elif form in ("rel-plain", "rel-dots") and sc["u_query"] and "/" in sc["u_query"]:
+                cls = "relative-path-reference:base-query-has-slash"     # RFC 3986 5.2.3 merges with the base *path*; a '/' in the base query must not matter
+            elif form in ("rel-plain", "rel-dots", "query-only"):
+                cls = "relative-path-reference:" + form
             else:
                 cls = form
             sig = "not-invalidated:named-url:" + cls
